@@ -438,7 +438,7 @@ func TestVerifC13(t *testing.T) {
 			runOne(vL(vZ(4), vI(kind), vI(tamper)))
 		}
 	}
-	n := k.N(600, 4000)
+	n := k.N(450, 4000)
 	for i := 0; i < n; i++ {
 		runOne(vC13GenSession(k.rnd, k.thorough()))
 		if len(lastWire) > 0 && len(lastWire) <= 3000 && k.rnd.chance(1, 2) {
